@@ -22,3 +22,8 @@ chk('C04', 'exploration',
     'Held on the sequences produced; every envelope code must have been expected at least once or the run is inconclusive.',
     'Trusted: vlib/ref_envelope.recount; don\'t-care classes listed in the evidence assumptions.',
     'reference-model monitor on generated + mutated envelope sequences', 'DESIGN.md 5 C04')
+chk('C11', 'exploration',
+    'The real X12Writer replays thousands of well-nested write histories (own / wrong / omitted trailers at every level, Close() after random and, in the thorough tier, all prefixes, '
+    'seven delimiter settings, three eol conventions, both ISA versions); its text must equal a model byte for byte and the output is re-read by the real reader and by the independent recount.',
+    'Trusted: the event model in checks/c11.py and vlib/ref_envelope.recount; the domain restriction to well-nested histories is the property\'s own.',
+    'model-based monitor over generated write histories + independent re-read', 'DESIGN.md 5 C11')
